@@ -437,6 +437,17 @@ def run_shard(shard, ctx):
         if shard["part"] in (0, 1):
             for _ in range(2):
                 check_case({"par": gen_par(rng, 256, xorsniff=True)}, ctx)
+        if shard["part"] in (2, 3, 4, 5):
+            # always present: all-keys extraction of an area whose key starts with eight equal bytes that are NOT 0x2e ^ a default
+            # key (a header look-alike under one of the other 253 single-byte keys)
+            while True:
+                par = gen_par(rng, rng.choice([12, 16, 40]))
+                if par["keykind"] == "lead7" and not par.get("guardlook") and not par.get("bulk"):
+                    break
+            lead = rng.choice([b for b in range(1, 256) if b ^ 0x2E not in (0x69, 0x2E, 0x00)])
+            par["envkey"] = bytes([lead]) * 8 + par["envkey"][8:]
+            par["allk"] = True
+            check_case({"par": par}, ctx)
         i = 0
         while i < shard["n"] and not ctx.out_of_time():
             keylen = lens[i % len(lens)] if i < len(lens) else rng.randrange(2, 257)
